@@ -81,6 +81,19 @@ add("C14", EX, "enum-rule",
     "All sequences of <=3 (quick, 9.3e4) / <=4 (thorough, 4.2e6) flag groups in any order over a 45-group menu; the harness shell-quotes the tokens it chose, a small reference reader of those tokens yields MustReject (mixed kinds, both/neither -a/-A, repeated -a/-A/-w, positional words, -F/-C text without a complete field/operator/value) or the Expected rule (complete text before/at/after the first operator; comma-split lists in order). An error is always acceptable; an accepted line must equal Expected.",
     RULE_NOTE, "DESIGN.md §5 C14")
 
+add("C09", EX, "enum-coalesce",
+    "bounded-exhaustive enumeration of record groups rendered from structured descriptions with unique tagged values; complete over all 2^16 st_mode values and all 2^16 record types",
+    "(a) all 65536 st_mode values on the PATH record selected for an open event: File block mirrors the PATH, Mode == %04o(mode&07777), object type agrees with S_IFMT for the 7 valid types; (b) every order of every subset of <=3 (quick) / <=4 (thorough) of 8 auxiliary records with the SYSCALL at every position x 6 syscalls x 3 collision modes x with/without EOE: identity from the first record, every (k,v) of every record's own Data() (separate parse) is a leaf of the JSON-flattened event or named by a warning, File block mirrors one PATH consistently; (c) every record type as a single record; (d) error-side groups yield (nil, error).",
+    "Trusted: the harness's record renderer and JSON flattening; refdata S_IF* constants; values are unique tags so containment is exact (short format-constrained values can coincide with other leaves, which only weakens detection).", "DESIGN.md §5 C09")
+add("C15", MC, "seqx-coalesce",
+    "explicit enumeration of all call histories over a pool of persistent message groups with differential and snapshot oracles + schedule exploration of concurrent coalescing/ID resolution through the shared caches + free-running -race pass",
+    "Every history of <=3 (quick) / <=4 (thorough) ops over {CoalesceMessages(g) for 9 pooled groups incl. compound events that share a record-type normalisation but append different syscall categories, ResolveIDsFromCaches on an earlier event}: after every op the inputs' Data/Tags/ToMapStr are unchanged, the event equals the one from a fresh parse (differential), every earlier event equals its snapshot, ResolveIDs equals ResolveIDs on a fresh equal event; every interleaving of 2 threads and every schedule within the preemption bound of 3 threads resolving IDs through the global caches (scheduler points at the cache mutex) equals the sequential result; data races sampled by a -race pass.",
+    "Trusted: shim fidelity; JSON view of Event plus sorted warnings as the equality; lookups go to the sandbox's passwd/group files (differential, names irrelevant); single-record uid-only events in the concurrent part so that Go's random map iteration cannot perturb the step trace.", "DESIGN.md §5 C15")
+add("C20", EX, "enum-tables",
+    "complete enumeration of every table row and of all 65536 record type codes",
+    "All 65536 codes String->GetAuditMessageType and text marshalling; every errno row (alias-safe, numbers vs asm-generic); every arch name/code through Build and ToCommandLine (codes vs linux/audit.h); every name of every per-arch syscall table (duplicates; Build by name sets exactly the table's bit); every rule field x operator and every inter-field pair through Build -> code (= linux/audit.h) -> ToCommandLine -> same name; every record_types / syscalls / has_fields entry of the tree's normalizations.yaml (resolvable, deterministic across loads and across qualifier-field subsets); GetAuditEventType over all types twice and in two other processes.",
+    "Trusted: refdata transcriptions; the tree's normalizations.yaml is read from the repository and compared with the embedded copy through three spot events.", "DESIGN.md §5 C20")
+
 def emit():
     out = {
         "version": 1,
@@ -101,6 +114,9 @@ def emit():
             {"name": "enum-netlink", "path": "checks/netlink", "serves_properties": ["C18"], "kind_free_text": "enumeration over a simulated socket layer + schedule exploration of concurrent Send"},
             {"name": "enum-parse", "path": "checks/parse", "serves_properties": ["C04", "C05", "C12"], "kind_free_text": "bounded-exhaustive input enumeration with crash isolation (engine/enumx)"},
             {"name": "enum-rule", "path": "checks/rulechk", "serves_properties": ["C06", "C07", "C13", "C14"], "kind_free_text": "bounded-exhaustive rule enumeration against an independent audit_rule_data decoder and a token-list reference reader"},
+            {"name": "enum-coalesce", "path": "checks/coalesce", "serves_properties": ["C09"], "kind_free_text": "tagged-value record group enumeration"},
+            {"name": "seqx-coalesce", "path": "checks/coalesce", "serves_properties": ["C15"], "kind_free_text": "call-history enumeration + schedule exploration of the ID caches"},
+            {"name": "enum-tables", "path": "checks/tables", "serves_properties": ["C20"], "kind_free_text": "complete table enumeration"},
             {"name": "seqx-reasm", "path": "checks/reasm", "serves_properties": ["C01", "C02", "C03", "C10", "C19"], "kind_free_text": "explicit-state BFS/DFS over op sequences on the real Reassembler with property monitors"},
         ],
         "checks": [],
